@@ -140,7 +140,7 @@ def gen_scenario(seed, profile=None):
                 force.append("color")
             if rng.random() < 0.5:
                 force.append("composites")
-            specs.append(world.gen_family(rng, force=force, forbid=[f for f in ("color",) if f not in force],
+            specs.append(world.gen_family(rng, force=force, forbid=[f for f in ("color",) if f not in force] + ["discrete_axis"],
                                           max_glyphs=12, n_masters=rng.choice([1, 2, 2, 2, 3]),
                                           p_sparse=0.7))
     for sp in specs:
